@@ -220,6 +220,14 @@ CLAIMS = {
             "the edit scripts and the matching of changed interfaces (runtime); the same set of changed interfaces in "
             "both directions",
             "§8.6 (added after the design: C11 was first declared not applicable)"),
+    "C37": ("small abstract interpretation of elf_helpers::find_hash_table_section_index (section-type facts from the "
+            "sh_type tests, tags on values derived from the current section, flags, reaching definitions of the "
+            "out-parameters at each return) + sibling agreement of the three lookups' elf_symbol::create arguments",
+            "the section indexes returned with a hash-table kind come, on every path, from a section tested to be of "
+            "that kind (independent of section order; the order dependence found was repaired); the SysV, GNU and "
+            "linear lookups build the returned symbol from the same fields",
+            "the hash walks themselves (hash functions, bloom filter, chains) are algorithmic; their memory safety is C34",
+            "§8.6 (added after the design: C37 was first declared not applicable)"),
     "C22": ("who-may-write rule over the whole program + must-pass-through dataflow (evidence of a match) at every "
             "write of the suppression categories",
             "a diff node enters SUPPRESSED_CATEGORY / PRIVATE_TYPE_CATEGORY only in suppression_categorization_visitor, "
@@ -257,7 +265,6 @@ NOT_APPLICABLE = {
     "C26": "set relation over runtime artifacts (types by declaration location)",
     "C29": "set relation over runtime artifacts (undefined symbols of the application)",
     "C35": "generic memory safety / UB of 120 kLOC has no repo-specific structural rule; sanitizers are a dynamic technique",
-    "C37": "algorithmic result of hash lookup vs linear scan on runtime tables; the memory-safety side is decided under C34",
     "C41": "pure string functions whose specification is about values",
     "C43": "debug-info format independence: runtime values decoded by elfutils",
 }
